@@ -82,9 +82,9 @@ def to_object(i, log_f, log_c):
 
 def run(tier, seed):
     r = pipeline.Run('C17', tier, seed)
-    r.rule = ('every pair (previous connection history with its ending, next connection history) from spec/GenC17.tla: 19 endings (mid HTTP '
+    r.rule = ('every pair (previous connection history with its ending, next connection history) from spec/GenC17.tla: 22 endings (mid HTTP '
               'header, mid frame header, mid payload, mid fragmented text/binary, mid code point, mid compression context, while closing, closed by '
-              'either side, rejected, connect failure, protocol error, invalid UTF-8, abandoned by break / exception / generator.close() / with-block) '
+              'either side, rejected, connect failure, close()/send called at the terminal event of a failed / rejected / dropped attempt, protocol error, invalid UTF-8, abandoned by break / exception / generator.close() / with-block) '
               'x 8 continuations, on one object via connect() twice and via persist(); compared with a fresh object; non-trivial = all pairs')
     r.assumptions = ['time is frozen; masking keys are drawn from a per-scenario seeded generator and are not part of the observable']
     res, _ = pipeline.generate('GenC17', "SPECIFICATION Spec\nINVARIANT EmitCases\nCHECK_DEADLOCK FALSE\n")
